@@ -4,6 +4,7 @@ import (
 	"encoding/json"
 	"fmt"
 	"math/rand"
+	"time"
 
 	"verif/harness/drv"
 )
@@ -23,6 +24,14 @@ func c12Spec(rng *rand.Rand, i int) (*SessSpec, string) {
 		sp.Backlog[vb] = append(sp.Backlog[vb], genSnap(rng, o, &ctr))
 	}
 	kind := []string{"mixed", "mixed", "allfinal", "finite", "socket", "hold"}[i%6]
+	switch i % 18 {
+	case 1:
+		kind = "open-window"
+	case 7:
+		kind = "rebalanced"
+	case 13:
+		kind = "finite-complete"
+	}
 	reqs := map[int]int{}
 	for vb := 0; vb < sp.NumVB; vb++ {
 		reqs[vb] = 1
@@ -39,6 +48,52 @@ func c12Spec(rng *rand.Rand, i int) (*SessSpec, string) {
 		finally[vb] = true
 	}
 	switch kind {
+	case "open-window":
+		// a transient end of vBucket 0 arrives while Open() has not finished: the stream request of the last vBucket is
+		// still unanswered. vBucket 0 must be requested again and keep being streamed.
+		last := sp.NumVB - 1
+		sp.ReqHold = map[int]int{last: 1}
+		sp.StartSteps = []Step{{Op: "waithold", N: 1}, {Op: "waitopen", VB: 0}, {Op: "end", VB: 0, St: transientStatus[rng.Intn(4)]}, {Op: "waitreopen", VB: 0, N: 2}, {Op: "releasereq"}}
+		reqs[0] = 2
+		sp.Steps = []Step{{Op: "barrier"}, {Op: "metrics"}, {Op: "append", VB: 0, Items: genSnap(rng, o, &ctr)}, {Op: "barrier"}, {Op: "metrics"}, {Op: "waitstop", Ms: 150}}
+	case "rebalanced":
+		// after a rebalance (close and reopen of the same range) transient ends are still recovered and nothing stops the client
+		sp.Membership = "dynamic"
+		sp.FirstInfo = [2]int{1, 1}
+		sp.Steps = append(sp.Steps, Step{Op: "rebalanceapi"}, Step{Op: "waitrebalance", N: 1}, Step{Op: "barrier"})
+		for vb := 0; vb < sp.NumVB; vb++ {
+			reqs[vb] = 2
+		}
+		for k := 0; k < 1+rng.Intn(3); k++ {
+			transient(rng.Intn(sp.NumVB))
+		}
+		if rng.Intn(2) == 0 {
+			// every vBucket has a transient end: the count must not reach zero
+			for vb := 0; vb < sp.NumVB; vb++ {
+				transient(vb)
+			}
+		}
+		sp.Steps = append(sp.Steps, Step{Op: "barrier"}, Step{Op: "metrics"}, Step{Op: "waitstop", Ms: 150})
+	case "finite-complete":
+		// a finite run whose stored checkpoints already are at every vBucket's high seqno: each stream ends at once and the
+		// client stops on its own
+		sp.Mode = "finite"
+		sp.API = false
+		sp.PreStore = map[int][4]uint64{}
+		sp.Backlog = map[int][][]ItemSpec{}
+		for vb := 0; vb < sp.NumVB; vb++ {
+			if rng.Intn(4) != 0 {
+				its := []ItemSpec{}
+				for k := 0; k < 1+rng.Intn(3); k++ {
+					ctr++
+					its = append(its, ItemSpec{K: "m", Key: []byte(fmt.Sprintf("f%d", ctr)), Val: []byte("{}")})
+				}
+				sp.Backlog[vb] = [][]ItemSpec{its}
+				n := uint64(len(its))
+				sp.PreStore[vb] = [4]uint64{0xabc000 + uint64(vb), n, 1, n}
+			}
+		}
+		sp.Steps = []Step{{Op: "waitstop", Ms: 5000}}
 	case "mixed":
 		for k := 0; k < 2+rng.Intn(6); k++ {
 			vb := rng.Intn(sp.NumVB)
@@ -228,6 +283,11 @@ func OracleEnds(tr *Trace) ([]Finding, int) {
 			fs = append(fs, Finding{"C12", "count", "C12/count", fmt.Sprintf("active-stream gauge %v at tick %d, expected %d (assigned %d, finally ended %d)", v, m.TCall, sp.NumVB-ended, sp.NumVB, ended)})
 		}
 	}
+	// finite mode: once every vBucket has reached the high seqno sampled at open the client stops on its own (bounded: the
+	// script waited 5 s for it)
+	if sp.Mode == "finite" && len(sp.ReqHold) == 0 && !stoppedSelf && closeCall != 0 {
+		fs = append(fs, Finding{"C12", "stop", "C12/stop/missing-finite", fmt.Sprintf("finite mode: every assigned vBucket is at its high seqno, the client was still running when the harness closed it (tick %d)", closeCall)})
+	}
 	// finite mode: everything up to the sampled high seqno delivered, nothing beyond
 	if sp.Mode == "finite" {
 		for vb := 0; vb < sp.NumVB; vb++ {
@@ -253,12 +313,21 @@ func OracleEnds(tr *Trace) ([]Finding, int) {
 // reopenObservable: did the session continue long enough after the end for a re-request to be expected
 // (a later barrier or waitreopen completed)? The library re-requests immediately.
 func (tr *Trace) reopenObservable(vb int, sg *Seg) bool {
+	var endW, closeW int64
 	for _, r := range tr.Log {
 		if r.T > sg.EndT+200 { // at least 200 further records (a later barrier, deliveries, scrapes) were logged
 			return true
 		}
+		if r.T >= sg.EndT && endW == 0 {
+			endW = r.W
+		}
+		if r.K == "ctl.close.call" && closeW == 0 {
+			closeW = r.W
+		}
 	}
-	return false
+	// ... or the client kept running for 3 s after the end (the script waited that long for the re-request; the library
+	// re-requests at once and retries after 1 s)
+	return endW != 0 && closeW != 0 && closeW-endW >= int64(3*time.Second)
 }
 
 func init() {
